@@ -24,7 +24,8 @@ REQUIRED = ['keeps_direct_seats', 'house_grows_by_adj', 'house_grows_by_adj_of_f
             'sainte_lague_unbounded', 'level_final_is_proportional', 'level_cty_is_least',
             'level_cty_direct_seat_counted', 'level_cty_at_is_least', 'level_cty_default_is_least', 'lrHareEval_fills', 'house_grows_by_adj_lr',
             'level_least_enlargement_ha', 'level_least_enlargement_lr', 'multistage_final_is_proportional',
-            'level_terminates_lr']
+            'level_terminates_lr', 'level_final_is_proportional_lr', 'level_terminates_of_adequate',
+            'level_cty_final_party_totals', 'partyVotes_ok']
 REQUIRED_COUNTERS = ['overhang_present', 'no_overhang', 'party_outside_tier', 'party_without_votes',
                      'levelling_iterations_ge2', 'by_constituency', 'multistage_wrapped',
                      'allow', 'level', 'd_hondt', 'sainte_lague', 'hare_lr', 'tie_in_baseline', 'multistage_depth2', 'default_overall', 'apportioned', 'intermediate_tie', 'alabama_lr']
@@ -59,11 +60,15 @@ NOT_VERIFIED = [
     'depth 2 iterates a set of constituencies, the model uses list order and results are compared as sorted maps',
 ]
 UNPROVED = [
-    'level_cty_final_is_proportional (ByParty party totals = overall proportional distribution of the enlarged house): '
-    'executed model + correspondence + oracle only',
-    'level_final_is_proportional with LargestRemainder as the evaluator: correspondence + oracle only (house size, '
-    'termination and the literal least-enlargement statement ARE proved for the largest-remainder model)',
-    'level_terminates when the baseline result contains a Tie key (the tie need not recur)',
+    'level_cty_floors_cover_direct_seats: the hypothesis `direct seats of the party <= its overall seats` of '
+    'level_cty_final_party_totals follows from the levelling stop condition when every direct seat lies in an evaluated '
+    'constituency (sum of the per-constituency maxima >= sum of the direct seats): not proved, validated by the oracle '
+    '(final_not_proportional / house_size clauses on the by-constituency cases)',
+    'level_final_is_proportional with a Tie in the enlarged house, or with parties without votes (HighestAverages '
+    'version needs positive votes)',
+    'termination when the baseline result contains a Tie key: neither a proof nor a non-terminating input found '
+    '(exhaustive {1..7}^<=3, {1..5}^4, houses <= 7, three evaluators); level_terminates_of_adequate reduces it to the '
+    'existence of one adequate house size; the fuel hypothesis stays',
 ]
 EXHAUSTIVE = {'thorough': True}
 NAMES = Names(prefix='p')
